@@ -1,3 +1,4 @@
+import Pl.FaultSafe
 import Pl.Transparent
 import Pl.SimTop
 
@@ -27,6 +28,18 @@ theorem run2_transparent :
     (run2 items times n plan').result = (run2 items times n (erase plan')).result ∧
     (run2 items times n plan').log.filter notHBev = (run2 items times n (erase plan')).log :=
   @Pl.run2_transparent
+end
+
+section
+open Pl
+
+/-- fault safety: when Hibernate / Boot calls of the items may fail (unusable directory, missing or truncated file), a run
+either returns an error or returns exactly the outcome of the fault-free run — never a different result -/
+theorem run2_fault_safe :
+    ∀ (items : List Item) (times : List Int) (n : Nat) (plan : List Action),
+    (∃ e, (run2 items times n plan).result = .error e) ∨
+    run2 items times n plan = run2 (noFaults items) times n plan :=
+  @Pl.run2_fault_safe
 end
 
 end Props.C09
